@@ -195,7 +195,7 @@ impl<'a> Gen<'a> {
 
     fn lambda(&mut self, self_name: Option<&str>) -> E {
         let p = (*self.rng.pick(&["x", "n", "a", "b", "k"])).to_string(); // may shadow a bound name
-        match self.rng.below(10) {
+        match self.rng.below(11) {
             0 | 1 if self_name.is_some() => {
                 // self-recursive
                 let me = self_name.unwrap();
@@ -233,6 +233,12 @@ impl<'a> Gen<'a> {
                 };
                 E::Lam(vec![Arg::Req(p.clone())], Box::new(lam(&["m"], inner)))
             }
+            8 => {
+                // reads a name that is bound nowhere yet: late-bound, resolved where it is called
+                let cands: Vec<&str> = ["k", "n", "m", "y", "t"].into_iter().filter(|c| *c != p).collect();
+                let l = (*self.rng.pick(&cands)).to_string();
+                if self.rng.chance(1, 2) { lam(&[&p], bin("+", id(&p), id(&l))) } else { lam(&[&p], E::List(vec![id(&p), id(&l)])) }
+            }
             _ => lam(&[&p], bin("+", id(&p), num(1))),
         }
     }
@@ -256,6 +262,7 @@ impl<'a> Gen<'a> {
             7,  // 14 self-nested
             3,  // 15 closure-returning do block
             8,  // 16 derive
+            7,  // 17 do-block with a local alias of a binding next to other locals
         ];
         let k = self.rng.pick_weighted(&w);
         match k {
@@ -623,6 +630,42 @@ impl<'a> Gen<'a> {
                 };
                 self.bound.entry(n).or_insert(Ty::Num);
                 (Stmt::Expr(e), "self-nested")
+            }
+            17 => {
+                // a do-block that gives a bound value (often a function) a local name and binds
+                // other locals - named like the names function bodies read - next to it
+                let target = if self.rng.chance(2, 3) { self.bound_of(&[Ty::Fun]) } else { None }.or_else(|| self.bound_any());
+                match target {
+                    Some(tg) => {
+                        let is_fun = self.bound.get(&tg) == Some(&Ty::Fun);
+                        let mut stmts = vec![assign("t2", id(&tg))];
+                        let mut pool = vec!["k", "n", "m", "y", "x", "t"];
+                        for _ in 0..self.rng.range(1, 4) {
+                            let i = self.rng.usize_below(pool.len());
+                            let l = pool.remove(i);
+                            let v = self.small_num();
+                            if self.rng.chance(1, 2) { stmts.push(assign(l, v)) } else { stmts.insert(0, assign(l, v)) }
+                        }
+                        let ret = match (is_fun, self.rng.below(3)) {
+                            (true, 0) | (true, 1) => call(id("t2"), vec![self.small_num()]),
+                            (true, _) => E::List(vec![call(id("t2"), vec![num(1)]), id("t2")]),
+                            (false, _) => E::List(vec![id("t2"), id(&tg)]),
+                        };
+                        let blk = doblk(stmts, ret);
+                        if self.rng.chance(1, 2) {
+                            let n = self.free_name().unwrap_or_else(|| self.any_name());
+                            (Stmt::Expr(assign(&n, blk)), "do-alias-locals-rhs")
+                        } else {
+                            (Stmt::Expr(blk), "do-alias-locals")
+                        }
+                    }
+                    None => {
+                        let n = self.free_name().unwrap_or_else(|| self.any_name());
+                        let l = self.lambda(Some(&n));
+                        self.bound.entry(n.clone()).or_insert(Ty::Fun);
+                        (Stmt::Expr(assign(&n, l)), "bind-lambda")
+                    }
+                }
             }
             16 => {
                 // a new binding derived from a bound value: the result may share inner cells
